@@ -27,6 +27,10 @@ type Mem struct {
 	// ReadOutsideLock counts page reads while the pager was not read-locked
 	ReadOutsideLock int
 	Closed          bool
+	// RefuseNested: behave like the file pager, which refuses a second RLock
+	// on a handle that holds one
+	RefuseNested bool
+	RefusedLocks int
 }
 
 var ErrBudget = errors.New("verif: page read budget exhausted")
@@ -69,6 +73,11 @@ func (m *Mem) Close() error { m.Closed = true; return nil }
 func (m *Mem) RLock() error {
 	m.mu.Lock()
 	defer m.mu.Unlock()
+	if m.RefuseNested && m.Locked > 0 {
+		// (as the file pager: one lock per handle)
+		m.RefusedLocks++
+		return errors.New("trying to lock a locked lock")
+	}
 	m.Locked++
 	m.Locks++
 	return nil
@@ -77,6 +86,9 @@ func (m *Mem) RLock() error {
 func (m *Mem) RUnlock() error {
 	m.mu.Lock()
 	defer m.mu.Unlock()
+	if m.RefuseNested && m.Locked == 0 {
+		return errors.New("trying to unlock an unlocked lock")
+	}
 	m.Locked--
 	m.Unlocks++
 	return nil
